@@ -295,15 +295,12 @@ pub fn lockstep(emu: &mut Emu, prog: &Prog, opts: &LsOpts, ctl: &mut dyn FnMut(&
         }
         if step.accesses.iter().any(|a| a.write && (0..a.size).any(|i| is_peripheral_reg(a.addr + i))) {
             periph = true;
-            // peripheral registers: the emulator's value is authoritative for the reference's memory
-            for acc in step.accesses.iter().filter(|a| a.write) {
-                for i in 0..acc.size {
-                    let a = acc.addr + i;
-                    if is_peripheral_reg(a) {
-                        if let Some(v) = raw_get(&emu.cpu.bus, a) {
-                            s.poke(a, v);
-                        }
-                    }
+            // peripheral registers: the emulator's values are authoritative for the reference's memory - all of
+            // them, not only the bytes written: a write to one register changes what others read (a DDR write
+            // changes the DR byte, a TCR write may change flags)
+            for a in (0xfee000u32..=0xfee00a).chain(0xffffd0..=0xffffda).chain(0xffff80..=0xffff99) {
+                if let Some(v) = raw_get(&emu.cpu.bus, a) {
+                    s.poke(a, v);
                 }
             }
         }
